@@ -485,6 +485,10 @@ def run(prog, ctx):
     res.rule("C04.I", 1, 1, "probe index used before the table can be reallocated")
     # ---------------- C04.N a decision taken after an insertion looks at the count after it (common.stale_count_decisions)
     C.stale_count_rule(res, prog, "C04.N", "theta::", "theta table")
+    # ---------------- C04.Z a table and the recorded log2 of its size change together: no callee sees one without the other
+    n_z = 0
+    n_z += C.coupled_store_rule(res, prog, "C04.Z", "theta::hash_table::ThetaHashTable", "entries", "lg_cur_size")
+    res.rule("C04.Z", n_z, 0, "table / size field pairs")
     res.explanation = ("structural rules over the %d functions reachable from ThetaSketch::{update,trim,reset,compact} and the builder: screen formula, "
                        "theta writers, insert/count pairing, capacity check post-domination and thresholds, probe geometry at call sites, replay loops, "
                        "trim/reset" % len(reach))
